@@ -24,6 +24,23 @@ TECHNIQUE = "Lean 4 structural induction over quantity expressions, generic in t
 
 def check(ctx):
     qty_common.run(ctx, "C03")
+    # ---- chains of two comparisons: if ANY link compares operands of different dimension there is no value — whichever link a
+    # lazy evaluation would look at first, and whether that link is true or false
+    import itertools
+    R, rng = ctx.real, ctx.rng
+    pools = {"L": ["2 m", "1 m", "150 cm", "3 km", "(1/2) inch"], "T": ["3 s", "1 min", "2 h"], "N": ["5", "1", "2", "(1/2)", "0"], "M": ["1 kg", "5 g"]}
+    triples = [k for k in itertools.product("LTNM", repeat=3) if k[0] != k[1] or k[1] != k[2]]
+    ops = ["<", "<=", ">", ">="]
+    for _ in range(ctx.n(400, 5000)):
+        ka, kb, kc = rng.choice(triples)
+        a, b, c = rng.choice(pools[ka]), rng.choice(pools[kb]), rng.choice(pools[kc])
+        o1, o2 = rng.choice(ops), rng.choice(ops)
+        text = "%s %s %s %s %s" % (a, o1, b, o2, c)
+        k, v = R.value(text)
+        ctx.count("chain:" + text, bucket="comparison chains across dimensions")
+        if k == "ok":
+            ctx.violation("chain-dim:" + text, text, "an error (a link compares a %s with a %s)" % ((ka, kb) if ka != kb else (kb, kc)), repr(v),
+                          "execute(%r)" % text)
 
 
 # ---- refinement lemmas of the unified pipeline model for this property (Props/Pipeline2.lean): the fragment this check's
